@@ -25,13 +25,9 @@ Definition EV_S_CRTM_CONTENTS : Z := 7.    (* tpmeventlog.EV_S_CRTM_CONTENTS *)
 Definition STARTUP_LOCALITY : list Z :=
   [83; 116; 97; 114; 116; 117; 112; 76; 111; 99; 97; 108; 105; 116; 121].
 
-(** [fmt.Sprintf("%c", locality)] for a uint8: the UTF-8 encoding of the code
-    point, i.e. ONE byte below 128 and TWO bytes (110000xx 10xxxxxx) from 128 on. *)
-Definition utf8_byte (l : Z) : list Z :=
-  if l <? 128 then [l] else [192 + l / 64; 128 + l mod 64].
-
-(** [[]byte(fmt.Sprintf("StartupLocality\x00%c", locality))] *)
-Definition startup_bytes (l : Z) : list Z := STARTUP_LOCALITY ++ [0] ++ utf8_byte l.
+(** [append([]byte("StartupLocality\x00"), locality)]: the locality byte itself (before the
+    fix in /repo the byte was formatted with "%c", two UTF-8 bytes from 128 on) *)
+Definition startup_bytes (l : Z) : list Z := STARTUP_LOCALITY ++ [0] ++ [l].
 
 (** "PCR0_DATA " + manifest.Algorithm.String() *)
 Definition pcr0_data_descr (a : Z) : list Z :=
